@@ -114,6 +114,17 @@ CHECKS = {
             "words over H, S, CZ matrices (sampled in quick, exhaustive in thorough): from_op_list, inverse, powers, tableau "
             "then/inverse, decompositions, action on basis states.",
             "Group enumeration by BFS over generator matrices modulo phase (vf/refmodel/pauli.py); n<=5.", "DESIGN.md 5/C13"),
+    "C12": ("exploration", "runtime monitor on CircuitOperation trees (unitary, keys, scripted-seed outcome distributions, unrolled forms, composing constructors); independently flattened reference program as oracle",
+            "Abstract block trees (depth 0-3; repetitions 0/1/2/3/-1/-2; explicit, default or disabled repetition ids; qubit maps; "
+            "key maps; measurements; key and sympy controls bound inside or outside their block, incl. shadowing; zero-qubit "
+            "operations) are built into CircuitOperations through the public constructor and independently flattened by the "
+            "documented rules; the wrapped circuit's unitary, measurement/control key sets and exact outcome distribution "
+            "(all random draws enumerated, three simulator configurations) must equal the flat program's, and so must the "
+            "outputs of mapped_circuit, mapped_op, decompose, unroll_circuit_op and the greedy unrollers; with_qubit_mapping / "
+            "with_measurement_key_mapping / repeat / inverse / with_qubits / with_key_path compositions are checked as "
+            "equalities of flat programs; single-qubit bodies (dedicated unitary path) with bound symbols and global phases.",
+            "Flattening rules transcribed from the CircuitOperation docstrings; repeat_until loops and parent_path not generated "
+            "yet; <=4 qubits, <=6 recorded digits.", "DESIGN.md 5/C12"),
 }
 
 PENDING_REASON = "check not built yet in this round; design in DESIGN.md section 5 (runtime monitor + reference oracle)"
